@@ -128,8 +128,19 @@ class Graph:
         return out
 
     def write(self, path, **kw):
-        text = "\n".join(self.lines(**kw)) + "\n"
+        lines = self.lines(**kw)
         rng = kw.get("rng")
+        self.text_noise = []
+        if rng is not None and rng.random() < 0.15 and len(lines) > 1:
+            # empty lines (between blocks of records or anywhere inside the file) are not records
+            for _ in range(rng.randint(1, 3)):
+                lines.insert(rng.randint(1, len(lines) - 1), "")
+            self.text_noise.append("blank_lines")
+        text = "\n".join(lines)
+        if rng is not None and rng.random() < 0.12 and lines[-1]:
+            self.text_noise.append("no_final_newline")  # the last record is still a record
+        else:
+            text += "\n"
         if path.endswith(".gz") and rng is not None and rng.random() < 0.5:
             # a multi-member gzip file (what bgzip writes, or concatenated gzip streams) is valid gzip
             from vf import bgzf
